@@ -35,6 +35,13 @@ Definition is_pyspace (c : ascii) : bool :=
 
 Definition ws_only (l : str) : bool := forallb is_ws l.
 
+Fixpoint str_eqb (a b : str) : bool :=
+  match a, b with
+  | [], [] => true
+  | x :: a', y :: b' => Ascii.eqb x y && str_eqb a' b'
+  | _, _ => false
+  end.
+
 (** ** lines *)
 
 (** Python [s.split("\n")] - never empty *)
